@@ -180,7 +180,10 @@ func (r *remoteKeySet) keysFromRemote(ctx context.Context) ([]jose.JSONWebKey, e
 		// This goroutine has exclusive ownership over the current inflight
 		// request. It releases the resource by nil'ing the inflight field
 		// once the goroutine is done.
-		go r.updateKeys(ctx)
+		//
+		// The download is shared by every caller that joins it, so it must not
+		// be bound to the cancellation of the caller that happened to start it.
+		go r.updateKeys(context.WithoutCancel(ctx))
 	}
 	inflight := r.inflight
 	r.mu.Unlock()
